@@ -46,7 +46,21 @@ impl Ident {
         ic::add_claim(e, topic, scheme, &issuer, &signature, &data, &uri)
     }
     pub fn remove_claim(e: &Env, id: BytesN<32>) { ic::remove_claim(e, &id) }
-    pub fn get_claim(e: &Env, id: BytesN<32>) -> Claim { ic::get_claim(e, &id) }
+    /// collaborator fault: an identity contract is the investor's own and need not be honest — with the flag set it hands
+    /// out its stored claims with the `issuer` field rewritten to a contract of its choosing (which approves anything)
+    pub fn get_claim(e: &Env, id: BytesN<32>) -> Claim {
+        let mut c = ic::get_claim(e, &id);
+        if let Some(rogue) = e.storage().instance().get::<_, Address>(&soroban_sdk::symbol_short!("rogue")) {
+            c.issuer = rogue;
+        }
+        c
+    }
+    pub fn lie_about_issuer(e: &Env, rogue: Option<Address>) {
+        match rogue {
+            Some(r) => e.storage().instance().set(&soroban_sdk::symbol_short!("rogue"), &r),
+            None => e.storage().instance().remove(&soroban_sdk::symbol_short!("rogue")),
+        }
+    }
     pub fn get_claim_ids_by_topic(e: &Env, topic: u32) -> Vec<BytesN<32>> { ic::get_claim_ids_by_topic(e, topic) }
 }
 #[contract]
@@ -58,6 +72,13 @@ impl Idv {
         idv::set_identity_registry_storage(e, &r);
     }
     pub fn verify_identity(e: &Env, account: Address) { idv::verify_identity(e, &account) }
+}
+/// an issuer nobody trusts that confirms every claim
+#[contract]
+pub struct Rogue;
+#[contractimpl]
+impl Rogue {
+    pub fn is_claim_valid(_e: &Env, _identity: Address, _claim_topic: u32, _scheme: u32, _sig_data: Bytes, _claim_data: Bytes) {}
 }
 /// claim issuer composed exactly as the module documentation shows
 #[contract]
@@ -131,6 +152,8 @@ pub enum Step {
     AdvanceTime { secs: u64 },
     /// collaborator fault: from now on (or no longer) issuer i answers `false` instead of trapping / returning nothing
     IssuerAnswersFalse { i: usize, on: bool },
+    /// collaborator fault: investor inv's identity contract rewrites the issuer field of the claims it hands out
+    IdentityLies { inv: usize, on: bool },
     Verify { inv: usize },
 }
 #[derive(Clone, Debug, Serialize, Deserialize)]
@@ -156,13 +179,14 @@ struct Model {
     revoked: BTreeSet<(usize, usize, u32, u8, u64)>,    // (issuer, investor, topic, data, valid_until) — revocation is per claim data
     nonce: BTreeMap<(usize, usize, u32), u32>,          // (issuer, investor, topic)
     revoked_at: BTreeMap<(usize, usize, u32, u8, u64), u64>,
-    answers_false: BTreeSet<usize>, // when each revocation was switched on (reach probe only)
+    answers_false: BTreeSet<usize>,
+    lying: BTreeSet<usize>, // when each revocation was switched on (reach probe only)
     now: u64,
 }
 impl Model {
     fn n(&self, i: usize, inv: usize, t: u32) -> u32 { *self.nonce.get(&(i, inv, t)).unwrap_or(&0) }
     fn claim_ok(&self, i: usize, inv: usize, t: u32, h: &Held) -> bool {
-        !self.answers_false.contains(&i) && self.keys.contains(&(i, h.key, t)) && self.now < h.valid_until && !self.revoked.contains(&(i, inv, t, h.data, h.valid_until)) && h.nonce == self.n(i, inv, t)
+        !self.lying.contains(&inv) && !self.answers_false.contains(&i) && self.keys.contains(&(i, h.key, t)) && self.now < h.valid_until && !self.revoked.contains(&(i, inv, t, h.data, h.valid_until)) && h.nonce == self.n(i, inv, t)
     }
     fn verified(&self, inv: usize) -> bool {
         self.topics.iter().all(|t| self.trusted.iter().any(|(i, ts)| ts.contains(t) && self.held.get(&(inv, *i, *t)).map(|h| self.claim_ok(*i, inv, *t, h)).unwrap_or(false)))
@@ -207,7 +231,7 @@ impl Check for Identity {
         true
     }
     fn probes(&self, _prop: &str) -> std::vec::Vec<&'static str> {
-        vec!["probe.rejected", "probe.required_topic_without_issuer", "probe.verified", "probe.verified_with_some_issuer_lacking_claim", "probe.verify_exactly_at_valid_until", "probe.verify_one_before_valid_until", "probe.verify_with_unexpired_claim_revoked_long_ago", "probe.claim_signed_ed25519", "probe.claim_signed_secp256r1", "probe.claim_signed_secp256k1", "probe.verified_secp256r1", "probe.verified_secp256k1", "probe.verify_with_claim_whose_issuer_answers_false"]
+        vec!["probe.rejected", "probe.required_topic_without_issuer", "probe.verified", "probe.verified_with_some_issuer_lacking_claim", "probe.verify_exactly_at_valid_until", "probe.verify_one_before_valid_until", "probe.verify_with_unexpired_claim_revoked_long_ago", "probe.claim_signed_ed25519", "probe.claim_signed_secp256r1", "probe.claim_signed_secp256k1", "probe.verified_secp256r1", "probe.verified_secp256k1", "probe.verify_with_claim_whose_issuer_answers_false", "probe.verify_while_identity_rewrites_issuer_of_valid_claims"]
     }
     fn generate(&self, rng: &mut Rng, tier: Tier) -> (Cfg, std::vec::Vec<Step>) {
         let cfg = Cfg { investors: 2, issuers: 2 + rng.below(2) as usize, keys: *rng.pick(&[[0, 1], [0, 2], [0, 3], [2, 3], [3, 2], [2, 1], [3, 1]]) };
@@ -283,6 +307,12 @@ impl Check for Identity {
                 Step::Issue { inv: 0, i: b, t, key: 0, ttl, data: 1, tamper: Tamper::None },
                 Step::Verify { inv: 0 },
             ]);
+            // a third of these openings go on with a collaborator fault while the claim is valid: the identity contract
+            // rewrites the issuer field, or the issuer answers false — verification must fail, and recover afterwards
+            if rng.chance(33) {
+                let (on, off) = if rng.chance(50) { (Step::IdentityLies { inv: 0, on: true }, Step::IdentityLies { inv: 0, on: false }) } else { (Step::IssuerAnswersFalse { i: b, on: true }, Step::IssuerAnswersFalse { i: b, on: false }) };
+                steps.extend([on, Step::Verify { inv: 0 }, off, Step::Verify { inv: 0 }]);
+            }
         }
         for k in 0..nsteps {
             let t = rng.below(4) as u32;
@@ -314,7 +344,7 @@ impl Check for Identity {
                 71..=73 => Step::RemoveClaim { inv, i, t },
                 74..=78 => Step::Revoke { i, inv, t, data: rng.below(3) as u8, on: rng.chance(70) },
                 79..=80 => Step::Bump { i, inv, t },
-                81 => Step::IssuerAnswersFalse { i, on: rng.chance(65) },
+                81 => if rng.chance(50) { Step::IssuerAnswersFalse { i, on: rng.chance(65) } } else { Step::IdentityLies { inv, on: rng.chance(65) } },
                 82..=88 => {
                     // targeted: land on valid_until-1 / valid_until / valid_until+1 of some issued claim
                     let fut: std::vec::Vec<u64> = deadlines.iter().cloned().filter(|d| *d > elapsed + 1).collect();
@@ -353,6 +383,7 @@ impl Check for Identity {
             IrsClient::new(e, &irs_id).add_identity(&w.actors[k], id);
         }
         let issuers: std::vec::Vec<Address> = (0..cfg.issuers).map(|_| e.register(Issuer, ())).collect();
+        let rogue = e.register(Rogue, ());
         let sks: std::vec::Vec<SigningKey> = (0..2u8).map(|k| SigningKey::from_bytes(&[k + 11; 32])).collect();
         let r1 = p256::ecdsa::SigningKey::from_slice(&[21u8; 32]).unwrap();
         let k1 = k256::ecdsa::SigningKey::from_slice(&[23u8; 32]).unwrap();
@@ -425,6 +456,10 @@ impl Check for Identity {
                         }
                     }
                 }
+                Step::IdentityLies { inv, on } => {
+                    IdentClient::new(e, &idents[*inv]).lie_about_issuer(&if *on { Some(rogue.clone()) } else { None });
+                    if *on { m.lying.insert(*inv); st.hit("fault.identity_contract_rewrites_issuer"); } else { m.lying.remove(inv); }
+                }
                 Step::IssuerAnswersFalse { i, on } => {
                     IssuerClient::new(e, &issuers[*i]).answer_false(on);
                     if *on { m.answers_false.insert(*i); st.hit("fault.issuer_answers_false"); } else { m.answers_false.remove(i); }
@@ -492,6 +527,9 @@ impl Check for Identity {
                     if m.held.iter().any(|(k, h)| k.0 == *inv && m.now < h.valid_until && m.revoked.contains(&(k.1, k.0, k.2, h.data, h.valid_until)) && m.revoked_at.get(&(k.1, k.0, k.2, h.data, h.valid_until)).map(|at| m.now - at > 2_700_000).unwrap_or(false)) {
                         st.hit("probe.verify_with_unexpired_claim_revoked_long_ago");
                     }
+                    if m.lying.contains(inv) && m.held.iter().any(|(k, h)| k.0 == *inv && { let mut m2 = m.clone(); m2.lying.clear(); m2.claim_ok(k.1, k.0, k.2, h) }) {
+                        st.hit("probe.verify_while_identity_rewrites_issuer_of_valid_claims");
+                    }
                     if m.held.iter().any(|(k, h)| k.0 == *inv && m.answers_false.contains(&k.1) && { let mut m2 = m.clone(); m2.answers_false.clear(); m2.claim_ok(k.1, k.0, k.2, h) }) {
                         st.hit("probe.verify_with_claim_whose_issuer_answers_false");
                     }
@@ -511,6 +549,9 @@ impl Check for Identity {
             }
             // the identity's claim registry (by topic and by id) holds exactly the claims added and not removed
             for (ix, idc) in idents.iter().enumerate() {
+                if m.lying.contains(&ix) {
+                    continue; // its answers are not the registry's while it lies
+                }
                 let icl = IdentClient::new(e, idc);
                 for t in 0..4u32 {
                     let want: BTreeSet<usize> = m.held.keys().filter(|k| k.0 == ix && k.2 == t).map(|k| k.1).collect();
